@@ -25,7 +25,7 @@ type c04Shape struct {
 	Casc   bool   `json:"cascade"`
 }
 
-var c04Trans = []string{"join", "die", "return", "io_broken", "sql_broken", "diverged", "lag_moving", "lag_stalled", "recovery_mark", "turn_cascade", "steady"}
+var c04Trans = []string{"join", "die", "return", "io_broken", "sql_broken", "diverged", "lag_moving", "lag_stalled", "recovery_mark", "turn_cascade", "steady", "partition_return_broken", "partition_return_diverged"}
 
 func c04Gen(seed int64, idx int) c04Shape {
 	r := rand.New(rand.NewSource(seed))
@@ -507,6 +507,19 @@ func c04Scenario(u *Unit, name string, sh c04Shape, fault *c01Fault) (*Tracker, 
 				x.SSSlave, x.SSReg = false, false
 				x.BacklogBytes, x.BacklogDrain = 500<<20, 0
 			})
+		case "partition_return_broken", "partition_return_diverged":
+			// the member is unreachable for longer than the inactivation delay (evicted with its semi-sync flag still set,
+			// nobody could reach it), then comes back streaming but not eligible for the list
+			s.W.Isolate(subject, true)
+			if sh.Trans == "partition_return_broken" {
+				s.W.Manual(subject, "sql thread error 1062", func(x *world.Server) { x.LastSQLErrno = 1062; x.StickyErr = true })
+			} else {
+				s.W.Manual(subject, "errant transaction", func(x *world.Server) { x.Executed.Add(x.UUID, 1) })
+			}
+			go func() {
+				time.Sleep(c04InactDelay + 8*time.Second)
+				s.W.Isolate(subject, false)
+			}()
 		case "recovery_mark":
 			s.ZK.Put("operator", NS+"/recovery/"+subject, "null")
 		case "turn_cascade":
@@ -581,6 +594,19 @@ func c04Run(u *Unit) {
 	if n > len(faults) {
 		n = len(faults)
 	}
+	// stratified: the first half of the sample are semi-sync statements (to the subject first), where a failed or
+	// interrupted call leaves the flags and the list disagreeing
+	subject := haNames[sh.N-1]
+	k := 0
+	for pass := 0; pass < 2; pass++ {
+		for i := k; i < len(faults) && k < n/2; i++ {
+			f := faults[i]
+			if f.B.Kind == "sql" && strings.HasPrefix(f.B.Class, "ss_") && f.B.Occ <= 2 && (pass == 1 || f.B.Host == subject) {
+				faults[k], faults[i] = faults[i], faults[k]
+				k++
+			}
+		}
+	}
 	for i := 0; i < n; i++ {
 		f := faults[i]
 		c04Scenario(u, fmt.Sprintf("%s-f%d-%s-%s", base, i, f.Kind, strings.ReplaceAll(f.B.Key(), "|", "_")), sh, &f)
@@ -588,7 +614,7 @@ func c04Run(u *Unit) {
 }
 
 func init() {
-	register(&Prop{ID: "C04", Units: func(tier string) int { return tierN(tier, 66, 330) }, Run: c04Run,
+	register(&Prop{ID: "C04", Units: func(tier string) int { return tierN(tier, 78, 390) }, Run: c04Run,
 		Floor: func(string) []string {
 			f := []string{"fault:kill-after", "fault:fail", "fault:dcs-fail", "eviction"}
 			for _, t := range c04Trans {
@@ -598,5 +624,5 @@ func init() {
 			}
 			return f
 		},
-		Rule: "unit = (2-5 HA nodes, configured count 1-3, adjustment order, cascade) x one membership/health transition applied to a converged semi-sync cluster; baseline run enumerates the manager's call boundaries of the update, then one run per sampled (boundary x {manager dies right after the call, the call fails}); predicates (a),(b) are evaluated on ground truth after every mutating event; non-trivial = the run issued semi-sync statements or wrote the list; distinct by (transition, n, w, order, fault kind, boundary class)"})
+		Rule: "unit = (2-5 HA nodes, configured count 1-3, adjustment order, cascade) x one membership/health transition applied to a converged semi-sync cluster; baseline run enumerates the manager's call boundaries of the update, then one run per sampled (boundary x {manager dies right after the call, the call fails}), half of the sample stratified to the semi-sync statements; two compound transitions let a member be unreachable beyond the inactivation delay and return ineligible with its flag still set; predicates (a),(b) are evaluated on ground truth after every mutating event; non-trivial = the run issued semi-sync statements or wrote the list; distinct by (transition, n, w, order, fault kind, boundary class)"})
 }
